@@ -1,7 +1,9 @@
 // Executor for property C02 (wrappers): drives the real UnarySheddingInterceptor
-//   kind "rpc":  one call at a time against a recording Shedder (every outcome class);
-//   kind "wrpc": overlapping calls against ONE long-lived real load.NewAdaptiveShedder behind a
-//                forwarding Shedder (virtual clock, injected CPU gauge), handlers blocked on gates.
+//
+//	kind "rpc":  one call at a time against a recording Shedder (every outcome class);
+//	kind "wrpc": overlapping calls against ONE long-lived real load.NewAdaptiveShedder behind a
+//	             forwarding Shedder (virtual clock, injected CPU gauge), handlers blocked on gates.
+//
 // Injected with `go test -overlay`; never written under /repo.
 package serverinterceptors
 
@@ -54,11 +56,12 @@ type c02RpcCase struct {
 	Kind string      `json:"kind"`
 	Reqs []c02RpcReq `json:"reqs"`
 	// kind wrpc
-	Window    int64   `json:"window"`
-	Buckets   int     `json:"buckets"`
-	Threshold int64   `json:"threshold"`
-	T0        int64   `json:"t0"`
-	Ops       [][]any `json:"ops"` // ["start", now, cpu, reqIndex] | ["finish", opIndex, now]
+	Window    int64    `json:"window"`
+	Buckets   int      `json:"buckets"`
+	Threshold int64    `json:"threshold"`
+	T0        int64    `json:"t0"`
+	Omit      []string `json:"omit"` // options not passed to the constructor (the case carries the defaults)
+	Ops       [][]any  `json:"ops"`  // ["start", now, cpu, reqIndex] | ["finish", opIndex, now]
 }
 
 type c02RpcObs struct {
@@ -73,6 +76,13 @@ type c02RpcObs struct {
 
 var errC02 = errors.New("verif plain error")
 
+func c02PanicVis(e any) string {
+	if err, ok := e.(error); ok && err == load.ErrServiceOverloaded {
+		return "panic_overloaded"
+	}
+	return "panic"
+}
+
 func c02Classify(err error) string {
 	switch {
 	case err == nil:
@@ -83,6 +93,10 @@ func c02Classify(err error) string {
 		return "wrapped"
 	case err == errC02:
 		return "err"
+	case err == load.ErrServiceOverloaded:
+		return "overloaded"
+	case err == context.Canceled:
+		return "canceled"
 	case status.Code(err) == codes.ResourceExhausted:
 		return "exhausted"
 	case status.Code(err) == codes.DeadlineExceeded:
@@ -181,6 +195,14 @@ func c02Handler(out string, before func()) func(ctx context.Context, req any) (a
 			return "v", status.Error(codes.DeadlineExceeded, "late")
 		case "panic":
 			panic("verif")
+		case "overloaded":
+			return "v", load.ErrServiceOverloaded
+		case "own_exhausted":
+			return "v", status.Error(codes.ResourceExhausted, load.ErrServiceOverloaded.Error())
+		case "canceled":
+			return "v", context.Canceled
+		case "panic_overloaded":
+			panic(load.ErrServiceOverloaded)
 		}
 		return "v", nil
 	}
@@ -189,8 +211,21 @@ func c02Handler(out string, before func()) func(ctx context.Context, req any) (a
 func c02RunWrpc(c c02RpcCase, metrics *stat.Metrics) (obs []c02WObs, stable bool, err string) {
 	stable = true
 	timex.SetFakeNow(time.Duration(c.T0))
-	real := load.NewAdaptiveShedder(load.WithWindow(time.Duration(c.Window)), load.WithBuckets(c.Buckets),
-		load.WithCpuThreshold(c.Threshold))
+	omit := map[string]bool{}
+	for _, o := range c.Omit {
+		omit[o] = true
+	}
+	var opts []load.ShedderOption
+	if !omit["window"] {
+		opts = append(opts, load.WithWindow(time.Duration(c.Window)))
+	}
+	if !omit["buckets"] {
+		opts = append(opts, load.WithBuckets(c.Buckets))
+	}
+	if !omit["threshold"] {
+		opts = append(opts, load.WithCpuThreshold(c.Threshold))
+	}
+	real := load.NewAdaptiveShedder(opts...)
 	fwd := &c02Fwd{real: real}
 	icp := UnarySheddingInterceptor(fwd, metrics)
 	flights := map[int]*c02Flight{}
@@ -229,7 +264,7 @@ func c02RunWrpc(c c02RpcCase, metrics *stat.Metrics) (obs []c02WObs, stable bool
 				defer func() {
 					if e := recover(); e != nil {
 						f.panicked = true
-						f.vis = "panic"
+						f.vis = c02PanicVis(e)
 					}
 				}()
 				val, err := icp(context.Background(), "req", &grpc.UnaryServerInfo{FullMethod: "/verif/c02"}, handler)
@@ -327,28 +362,13 @@ func TestVerifC02Rpc(t *testing.T) {
 			q := q
 			rec := &c02Rec{shed: q.Shed}
 			var o c02RpcObs
-			handler := func(ctx context.Context, req any) (any, error) {
-				o.Runs++
-				switch q.Out {
-				case "err":
-					return "v", errC02
-				case "deadline":
-					return "v", context.DeadlineExceeded
-				case "wrapped":
-					return "v", fmt.Errorf("downstream: %w", context.DeadlineExceeded)
-				case "status_deadline":
-					return "v", status.Error(codes.DeadlineExceeded, "late")
-				case "panic":
-					panic("verif")
-				}
-				return "v", nil
-			}
+			handler := c02Handler(q.Out, func() { o.Runs++ })
 			icp := UnarySheddingInterceptor(rec, metrics)
 			func() {
 				defer func() {
 					if e := recover(); e != nil {
 						o.Panic = true
-						o.Vis = "panic"
+						o.Vis = c02PanicVis(e)
 					}
 				}()
 				val, err := icp(context.Background(), "req", &grpc.UnaryServerInfo{FullMethod: "/verif/c02"}, handler)
